@@ -39,6 +39,11 @@ pub enum Kind {
 	/// it reaches its locking depth `off` blocks after (negative: before) the block in which the waiting
 	/// HTLC must be timed out.
 	UncommittedTimeout { splice: Option<i32> },
+	/// A received two-part payment whose parts carry different final CLTV deltas (both arrival orders), claimed
+	/// `rel` blocks after (negative: before) the advertised claim deadline: the deadline is one the node honours
+	/// for every part, a claim below it settles every part, from it on the node fails every part back itself
+	/// (the case itself is C04's `MppDeadline`, judged here for the deadline clause of this property)
+	MppClaimDeadline { d_first: u32, d_second: u32, rel: i32 },
 }
 
 #[derive(Clone, Debug)]
@@ -260,6 +265,9 @@ pub fn run_case(c: &Case) -> Result<Outcome, (String, String)> {
 	let viol = |o: &str, d: String| (o.to_string(), d);
 	if let Kind::UncommittedTimeout { splice } = c.kind {
 		return run_uncommitted(c, splice);
+	}
+	if let Kind::MppClaimDeadline { d_first, d_second, rel } = c.kind {
+		return crate::checks::c04::run_case(&crate::checks::c04::Case::MppDeadline { d_first, d_second, rel }).map(|r| Outcome { label: r.label });
 	}
 	let mut w = World::new(vec![user_config(Ct::Static), user_config(Ct::Static), user_config(Ct::Static)], 253);
 	let ab = w.open_channel(0, 1, 1_000_000, 400_000_000);
@@ -598,7 +606,7 @@ pub fn run_case(c: &Case) -> Result<Outcome, (String, String)> {
 				None => Err(viol("inbound-claim-missing", format!("{}: B never claimed the inbound HTLC on chain (commitment broadcast at {})", ctx, hb))),
 			}
 		},
-		Kind::ForwardBoundary { .. } | Kind::LateArrival { .. } | Kind::UncommittedTimeout { .. } => unreachable!(),
+		Kind::ForwardBoundary { .. } | Kind::LateArrival { .. } | Kind::UncommittedTimeout { .. } | Kind::MppClaimDeadline { .. } => unreachable!(),
 	}
 }
 
@@ -625,6 +633,11 @@ pub fn cases(tier: Tier) -> Vec<Case> {
 	let offs: Vec<i32> = if th { (-12..=12).collect() } else { vec![-6, -2, -1, 0, 1, 2, 6] };
 	for off in offs {
 		v.push(Case { kind: Kind::UncommittedTimeout { splice: Some(off) }, miner_delay: 0 });
+	}
+	for (d_first, d_second) in [(60u32, 60u32), (60, 64), (64, 60), (72, 60), (60, 72)] {
+		for rel in if th { (-3i32..=2).collect::<Vec<_>>() } else { vec![-1i32, 0] } {
+			v.push(Case { kind: Kind::MppClaimDeadline { d_first, d_second, rel }, miner_delay: 0 });
+		}
 	}
 	let delays: Vec<u32> = if th { (0..=17).collect() } else { vec![0, 17] };
 	for d in delays.iter() {
@@ -673,7 +686,7 @@ pub fn run(args: &Args) -> i32 {
 		}
 	}
 	let has = |s: &str| outcomes.keys().any(|k| k.contains(s));
-	if !(has("closed-bc@") && has("closed-ab@") && has("paid onchain=1") && has("paid onchain=0") && has("fwd=0") && has("fwd=1") && has("uncommitted failback") && has("splice=1")) {
+	if !(has("closed-bc@") && has("closed-ab@") && has("paid onchain=1") && has("paid onchain=0") && has("fwd=0") && has("fwd=1") && has("uncommitted failback") && has("splice=1") && has("mpp-deadline claimed") && has("mpp-deadline expired")) {
 		if violations.is_empty() {
 			mc_common::cli::die(&format!("vacuity guard: not every scenario kind reached its non-trivial outcome: {:?}", outcomes));
 		}
